@@ -287,7 +287,14 @@ class RouteCQC:
                     if len(circuit.moments) == i + 1:
                         single_qubit_ops[timestep].append(op)
                     elif key in ('', default_key):
-                        single_qubit_ops[timestep].extend(ops.measure(qubit) for qubit in op.qubits)
+                        # Each single-qubit measurement goes to the timestep of its own qubit, as
+                        # any single-qubit operation does: placed at the timestep of the whole
+                        # measurement, a later two-qubit gate on qubits that were idle so far would
+                        # be scheduled in front of their measurement.
+                        for qubit in op.qubits:
+                            qubit_op = ops.measure(qubit)
+                            qubit_timestep = two_qubit_circuit.earliest_available_moment(qubit_op)
+                            single_qubit_ops[qubit_timestep].append(qubit_op)
                     else:
                         raise ValueError(
                             'Intermediate measurements on three or more qubits '
